@@ -422,16 +422,35 @@ func c15Targets(p *core.Prog, r *core.Run, pre string) {
 				r.Check(pre+".GUARDS", "emit:Target.Address", addrV != nil && v.String() == addrV.String(), p.InstrPos(st), "the yielded address is the filtered, de-duplicated one")
 			case "ECH":
 				tgt++
-				r.Check(pre+".PAIR", "emit:Target.ECH", v.Op == "param" && v.Name == "cc2", p.InstrPos(st), "Target.ECH is the helper's ech argument")
+				r.Check(pre+".PAIR", "emit:Target.ECH", v.Op == "param" && len(add.Params) == 4 && v.Val == ssa.Value(add.Params[2]), p.InstrPos(st), "Target.ECH is the helper's ech argument")
 			case "ALPN":
 				tgt++
-				r.Check(pre+".PAIR", "emit:Target.ALPN", v.Op == "param" && v.Name == "cc3", p.InstrPos(st), "Target.ALPN is the helper's alpn argument")
+				r.Check(pre+".PAIR", "emit:Target.ALPN", v.Op == "param" && len(add.Params) == 4 && v.Val == ssa.Value(add.Params[3]), p.InstrPos(st), "Target.ALPN is the helper's alpn argument")
 			}
 		}
 	}
 	r.Check(pre+".PAIR", "emit:Target-fields", tgt == 3, p.Pos(add.Pos()), "the yielded Target has its three fields set from the helper's arguments")
 	// the family filter
 	c15Family(p, r, fn, pre)
+	// the filter tells the families apart by length (4 or 16 bytes): addresses
+	// the package makes up itself (localhost) must be in that form - net.IPv4 and
+	// net.ParseIP hand back the 16-byte form of an IPv4 address
+	nLong := 0
+	for _, s := range callSites(p, p.PkgFuncs(Ech), `net\.(IPv4|ParseIP)`) {
+		short4 := false
+		if cv, ok := s.Instr.(ssa.Value); ok {
+			for _, ref := range *cv.Referrers() {
+				if c, ok := ref.(*ssa.Call); ok && p.X(c).Name == "(net.IP).To4" {
+					short4 = true
+				}
+			}
+		}
+		if !short4 {
+			nLong++
+			r.Check(pre+".GUARDS", fmt.Sprintf("address-form:%s#%d", p.FuncName(core.Root(s.Fn)), nLong), false, p.InstrPos(s.Instr), "%s yields the 16-byte form of an IPv4 address, which the length-based family filter of Targets takes for IPv6; use a 4-byte literal or To4()", s.X.Name)
+		}
+	}
+	r.Check(pre+".GUARDS", "address-form", nLong == 0, p.Pos(fn.Pos()), "addresses the package builds itself are in the 4/16-byte form the family filter expects (%d built with net.IPv4/ParseIP without To4)", nLong)
 }
 
 func c15Family(p *core.Prog, r *core.Run, targets *ssa.Function, pre string) {
